@@ -287,11 +287,11 @@ func (u UnionSet) Equal(s Value) bool {
 }
 
 func (u UnionSet) Hash(seed uintptr) uintptr {
-	h := seed
+	var h uintptr
 	for e := u.Enumerator(); e.MoveNext(); {
 		h ^= e.Current().Hash(0)
 	}
-	return h
+	return finishHash(h, seed)
 }
 
 func (u UnionSet) OrderedValues() ValueEnumerator {
